@@ -53,9 +53,9 @@ def main(tier):
         ev.add_tlc('records %s' % name, r)
         recs = json.load(open(rf))['recs']
         total += len(recs)
-        for m in re.finditer(r'<<"STAT", "sp", (\d+), (\d+), (\d+)>>', r.out):
-            nontriv += int(m.group(2))
-            special += int(m.group(3))
+        for v in V.stat(r.out, 'sp'):
+            nontriv += v[0]
+            special += v[1]
         ev.sample({'set': name, 'n': recs[-1]['n'], 'edges': recs[-1]['edges'][:12], 'johnsons_row1': recs[-1]['john'][:recs[-1]['n']]})
         for inv, st in V.violating_states(r):
             for (i, t) in st.get('bad', []):
